@@ -72,7 +72,7 @@ def build(ctx, chain=False, discrete=False):
         gap = rng.choice([60, 3600, 86400])
         t0 = datetime(2020, 6, 1, 12)
         grid = [t0 + timedelta(seconds=gap * k) for k in range(n)]
-        L = rng.choice([0, 0, 5, 30])
+        L = rng.choice([0, 0, 5, 30, 0.2, 0.7, 59.9])      # incl. fractional, non-dyadic latencies
         L = L if L < gap else 0
         d = rng.choice([0, 0, 1, 2, 3])
         px = {c: rng.choice([5.0, 50.0, 3000.0]) for c in cs}
@@ -126,7 +126,7 @@ def rebuild_with_latency(ctx, cfg, env):
     with a different latency: the latent / non-latent split must follow the new latency."""
     rng = ctx.rng
     gap = cfg["gap"]
-    choices = [x for x in (0, 5, 30) if x < gap and x != cfg["L"]]
+    choices = [x for x in (0, 5, 30, 0.7) if x < gap and x != cfg["L"]]
     if not choices:
         return None
     L2 = rng.choice(choices)
